@@ -71,6 +71,14 @@ type loginPlan struct {
 	// its own connection (user name prefix "prime_"); it must succeed, and its connection's capabilities must still
 	// be the ones ITS server returned after the other logins of the run.
 	Prime bool `json:"prime,omitempty"`
+	// EndKind (C08): "eof" / "reset": after a reply that stops early (Trunc1/Trunc2 >= 0) the server ends the
+	// connection instead of falling silent; "eof-after" / "reset-after": it ends the connection right after the
+	// complete last reply (the acceptance stands, what Login makes of it is not judged - see the listed C14 finding).
+	EndKind string `json:"end_kind,omitempty"`
+	// GapMs (C08): the packets of every reply arrive that far apart (simulated milliseconds).
+	GapMs int `json:"gap_ms,omitempty"`
+	// CancelAtMs (C08): the caller cancels Login's context at that simulated time (the deadline stays at 30 s).
+	CancelAtMs int `json:"cancel_at_ms,omitempty"`
 	// ReusePlain (C09): the login configuration object is first used for a login WITHOUT password encryption on
 	// another connection (first connection of the run, valid plain script), then switched back to encryption and
 	// used for the login under test: nothing of the first use may leak into the second.
@@ -473,7 +481,7 @@ func runLogin(p *loginPlan, schedSeed uint64, replay []simrt.Choice, lenient, ke
 	pr := NewTDSPeer(s)
 	wire := func(pr *TDSPeer, p *loginPlan) {
 		pr.Async = p.Async
-		reply := func(items []lPkg, trunc int, cuts []int) {
+		reply := func(items []lPkg, trunc int, cuts []int, isLast bool) {
 			eom := true
 			if trunc >= 0 {
 				if trunc < len(items) {
@@ -486,10 +494,36 @@ func runLogin(p *loginPlan, schedSeed uint64, replay []simrt.Choice, lenient, ke
 			for _, it := range items {
 				body = append(body, it.encode(p)...)
 			}
+			endNow := func() {
+				kind := simrt.TermEOF
+				if strings.HasPrefix(p.EndKind, "reset") {
+					kind = simrt.TermReset
+				}
+				s.Fault("connection-ended-by-server")
+				return_ := func() { pr.Conn.End(kind, false) }
+				if pr.Async || p.GapMs > 0 {
+					s.After(time.Duration(p.GapMs*(len(cuts)+2))*time.Millisecond, "end connection", return_)
+				} else {
+					return_()
+				}
+			}
 			if len(body) == 0 && !eom {
+				if p.EndKind == "eof" || p.EndKind == "reset" {
+					endNow()
+				}
 				return
 			}
-			pr.SendPackets(peer.Packetise(body, cuts, peer.BufResponse, 0, eom))
+			pks := peer.Packetise(body, cuts, peer.BufResponse, 0, eom)
+			if p.GapMs > 0 {
+				for i, pk := range pks {
+					pr.Conn.DeliverAfter(time.Duration(i*p.GapMs)*time.Millisecond, pk)
+				}
+			} else {
+				pr.SendPackets(pks)
+			}
+			if (!eom && (p.EndKind == "eof" || p.EndKind == "reset")) || (eom && isLast && strings.HasSuffix(p.EndKind, "-after")) {
+				endNow()
+			}
 		}
 		pr.OnMsg = func(m *ClientMsg) {
 			switch {
@@ -509,9 +543,9 @@ func runLogin(p *loginPlan, schedSeed uint64, replay []simrt.Choice, lenient, ke
 						p = &q
 					}
 				}
-				reply(p.Phase1, p.Trunc1, p.Cuts1)
+				reply(p.Phase1, p.Trunc1, p.Cuts1, !p.Encrypted)
 			case m.Index == 1 && p.Encrypted:
-				reply(p.Phase2, p.Trunc2, p.Cuts2)
+				reply(p.Phase2, p.Trunc2, p.Cuts2, true)
 			}
 		}
 	}
@@ -582,6 +616,20 @@ func runLogin(p *loginPlan, schedSeed uint64, replay []simrt.Choice, lenient, ke
 		ctx, cancel := simrt.WithTimeout(context.Background(), 30*time.Second)
 		defer cancel()
 		obs.deadline = simrt.SimNow() + 30*time.Second
+		if p.CancelAtMs > 0 && obs == mainObs {
+			at := time.Duration(p.CancelAtMs) * time.Millisecond
+			if at < obs.deadline {
+				obs.deadline = at
+			}
+			canceller := simrt.Spawn("canceller", func() {
+				if d := at - simrt.SimNow(); d > 0 {
+					simrt.Sleep(d)
+				}
+				simrt.Record("cancel-login-context", "", "", 0)
+				cancel()
+			})
+			defer simrt.Join(canceller)
+		}
 		obs.loginErr = ch.Login(ctx, lc)
 		obs.returnedAt = simrt.SimNow()
 		obs.conn = conn
@@ -667,7 +715,7 @@ func (c08) NRuns(tier string) int {
 	return c08EditCount()*6 + 2000
 }
 func (c08) Rule() string {
-	return "login scripts derived from the valid plain and encrypted reply scripts: EVERY single edit (delete / duplicate / swap-adjacent each package; each field set to each alternative: ack status, message id, parameter count and types, cipher, key empty/garbage/trailing/PKIX/too small/white space/not PEM/ECDSA and Ed25519 keys, capability masks zero, DONE status bits; reply stops after each package; no reply at all), each classified by construction as MUST-SUCCEED / MUST-FAIL / EITHER, x packetisations x key sizes 1024/1536/2048 x nonce lengths x 0..3 remote servers (quick: 6 variants per edit, thorough: 300), one variant of every edit (and 10% of the others) is preceded by a valid login on its own connection, which must succeed and keep its capabilities; one variant of every edit (and 12% of the others) repeats the login 5..8 times and then make a control login against the valid script (must succeed); plus seeded scripts with benign decorations (invisible ENVCHANGE/EED-info packages) and 2..4 edits; non-trivial = an edit or decoration was applied; distinct = distinct (flow, edit, key size, remote count)"
+	return "login scripts derived from the valid plain and encrypted reply scripts: EVERY single edit (delete / duplicate / swap-adjacent each package; each field set to each alternative: ack status, message id, parameter count and types, cipher, key empty/garbage/trailing/PKIX/too small/white space/not PEM/ECDSA and Ed25519 keys, capability masks zero, DONE status bits; reply stops after each package; no reply at all), each classified by construction as MUST-SUCCEED / MUST-FAIL / EITHER, x packetisations x key sizes 1024/1536/2048 x nonce lengths x 0..3 remote servers (quick: 6 variants per edit, thorough: 300), one variant of every edit (and 10% of the others) is preceded by a valid login on its own connection, which must succeed and keep its capabilities; one variant each (and 4% of the others): the server ends the connection (EOF or reset) after a reply that stops early or right after the acceptance; the packets of the replies arrive 0.1..4.9 s apart; the caller cancels the context after 1 ms..10 s; one variant of every edit (and 12% of the others) repeats the login 5..8 times and then make a control login against the valid script (must succeed); plus seeded scripts with benign decorations (invisible ENVCHANGE/EED-info packages) and 2..4 edits; non-trivial = an edit or decoration was applied; distinct = distinct (flow, edit, key size, remote count)"
 }
 func (c08) Components() map[string]string {
 	return map[string]string{"tds (Channel.Login, LoginConfig, rsaEncrypt, capability negotiation, NextPackageUntil)": "real (rewritten)", "crypto/rand": "stub: simrt seeded stream", "server": "stub: two-phase scripted login peer", "clock/contexts": "simulated (30 s login deadline costs no wall time)"}
@@ -710,6 +758,30 @@ func (c08) Gen(r *Rand, idx int, tier string) interface{} {
 		}
 		if idx%variants == 2 || r.Pct(10) {
 			p.Prime = true
+		}
+		if p.Storm == 0 && !p.Prime {
+			either := func() {
+				if p.Class == "MUST-SUCCEED" {
+					p.Class = "EITHER"
+				}
+			}
+			switch {
+			case idx%variants == 3 || r.Pct(4):
+				if p.Trunc1 >= 0 || p.Trunc2 >= 0 {
+					p.EndKind = Pick(r, []string{"eof", "reset"})
+				} else {
+					p.EndKind = Pick(r, []string{"eof-after", "reset-after"})
+					either()
+				}
+			case idx%variants == 4 || r.Pct(4):
+				p.GapMs = Pick(r, []int{100, 100, 2000, 4900})
+				if p.GapMs > 100 {
+					either()
+				}
+			case idx%variants == 5 || r.Pct(4):
+				p.CancelAtMs = Pick(r, []int{1, 5, 100, 10000})
+				either()
+			}
 		}
 		return p
 	}
